@@ -96,3 +96,66 @@ R.contract(
     },
     prop=["C10", "C12"],
 )
+
+R.contract(
+    "RangeSet.shift",
+    requires=["len(RL(self)) > 0"],
+    modifies=_MOD,
+    returns="range",
+    ensures=[
+        "result == old(RL(self))[0]",
+        "forall(lambda x: self.gview[x] == (old(self.gview)[x] and not (result.start <= x < result.stop)))",
+        "len(RL(self)) == len(old(RL(self))) - 1",
+    ],
+    ghost_exit={
+        "self.gview": "amap(lambda x: old(self.gview)[x] and not (old(RL(self))[0].start <= x < old(RL(self))[0].stop))",
+        "self.gidx": "amap(lambda x: old(self.gidx)[x] - 1)",
+    },
+    prop=["C10", "C12"],
+)
+
+R.contract(
+    "RangeSet.bounds",
+    requires=["len(RL(self)) > 0"],
+    returns="range",
+    ensures=[
+        "result.start < result.stop",
+        "forall(lambda x: implies(self.gview[x], result.start <= x < result.stop))",
+        "self.gview[result.start] and self.gview[result.stop - 1]",
+        "same(RL(self), old(RL(self)))",
+    ],
+    prop=["C10", "C12"],
+)
+
+R.contract(
+    "RangeSet.__getitem__",
+    params={"key": "int"},
+    returns="range",
+    raises={"IndexError": "not (-len(RL(self)) <= key < len(RL(self)))"},
+    ensures=[
+        "result == RL(self)[key if key >= 0 else key + len(RL(self))]",
+        "same(RL(self), old(RL(self)))",
+    ],
+    prop=["C10", "C12"],
+)
+
+R.contract(
+    "RangeSet.__len__",
+    returns="int",
+    ensures=["result == len(RL(self))", "same(RL(self), old(RL(self)))"],
+    prop=["C10", "C12"],
+)
+
+# NOT PROVED: the loop of subtract (pop / split / truncate inside one while) has no inductive
+# invariant in this tree.  The contract below is ASSUMED at call sites (trusted=True) and is
+# checked on the real function only by the bounded stand-in `rangeset-smallscope`.
+R.contract(
+    "RangeSet.subtract",
+    requires=["stop > start"],
+    modifies=_MOD,
+    ensures=[
+        "forall(lambda x: self.gview[x] == (old(self.gview)[x] and not (start <= x < stop)))",
+    ],
+    trusted=True,
+    prop=["C10", "C06"],
+)
